@@ -44,13 +44,14 @@ CLAIMS = {
          "int64 overflow, value never increases; chain level: a batch with conversions is only put into holding by its own block and executed by the next block that has "
          "rates, at that block's rates (model of SyncBlock tied to the real node on chains with graded / ungraded patterns, including unrated snapshot heights).",
          "section 6 C07", ""),
- "C08": ("Partial proof: Coq theorems that the content classes a third party controls on the transaction chain are harmless (undecodable / invalid entries, entries repeated "
-         "after execution or while pending or rejected, whole blocks of garbage are skipped and change nothing); the full totality statement is kept in Props/C08.v as not "
-         "proved. Tie: adversarial chains (garbage on all three chains, truncated and length-compensated JSON, repeated hashes, 0..n ExtIDs) replayed by the real node; "
+ "C08": ("Coq theorems: the entries of the transaction chain are processed to the end WHATEVER they contain (totality of apply_tx_block from the invariants hist_closed / "
+         "bal_room, which every reachable state is proved to satisfy; exact residual failure codes with no hypothesis on the entries), the holding pass of a rated block cannot "
+         "fail outside the PEG-bank era (and inside it without PEG requests); invalid / repeated / recorded entries and garbage blocks are skipped and change nothing. Partial: "
+         "totality of the whole step_block (grading glue, insert_rates, payouts, burns) is not a theorem. Tie: adversarial chains (garbage on all three chains, truncated and length-compensated JSON, repeated hashes, 0..n ExtIDs) replayed by the real node; "
          "oracle: every block applies.", "section 6 C08", "Known finding: bank-era mixed batches wedge the block (closed era). "),
  "C09": ("Coq theorem over all chains with increasing heights and all sets of restart heights: dropping the in-memory cache anywhere never changes the replayed database; "
          "the averages a block uses are a function of the committed database alone. Tie: chain correspondence on chains with unrated blocks inside the averaging window, "
-         "and the real daemon restarted at every height of such a chain vs one continuous run.", "section 6 C09", ""),
+         "the real daemon restarted at every height of such a chain vs one continuous run, and a daemon serving API requests (some aborted by the client, blocks arriving one at a time) vs one serving none.", "section 6 C09", ""),
  "C10": ("Coq theorem over all chains and all fault sequences whose error propagates: the database reached is the fault-free replay; table obligation from the source: the "
          "sites where an error is discarded, only logged or replaced are exactly the reviewed ones. Tie: every distinct SQL call site and factomd request of a chain fails "
          "once on the real daemon, which must then reach the fault-free ledger.", "section 6 C10",
@@ -66,7 +67,7 @@ CLAIMS = {
          "The numeric sandwich of the binary64 band predicate is not proved (the predicate is the code's computation, checked by correspondence). Known finding in the design: the nil error returned on a band failure before 2.0.2 (closed era) is mirrored by the model. "),
  "C13": ("Coq theorems for every state, pair of assets, height and rate/average pattern: the decision rule for a conversion (insufficient funds, zero rate, one-way pFCT, one-way "
          "small assets / PEG, unconvertible, let through), PEG conversions refused from 2.0 on, a conversion that is let through is recorded and a refused one leaves every "
-         "balance untouched; the one-way sets are regenerated from the source. Tie: a slice of all pairs x {act-1, act, act+1} on the real node.", "section 6 C13", ""),
+         "balance untouched; the one-way sets are regenerated from the source. Tie: a slice of all pairs x {act-1, act, act+1} on the real node; a chain where one asset loses its average while keeping its market rate.", "section 6 C13", ""),
  "C14": ("Coq theorems for all stake sets: the total paid never exceeds the cap, equals it to the last unit when the stakes reach it, below it everybody receives his stake; the "
          "stake depends on the two snapshots only through the per-asset minimum; an address absent from the previous snapshot has no stake; order independence. Tie: "
          "ConversionSupplySet.Payouts differential and chains over three snapshot periods compared on balances, snapshots and staking rows.", "section 6 C14", ""),
@@ -77,7 +78,9 @@ CLAIMS = {
  "C16": ("Coq theorems for all request sets: the PEG created from one bank never exceeds it and exhausts it when requests reach it, shares are floor(request*bank/total), yield "
          "plus refund never exceeds the input's value, order independence. Tie: Payouts and Refund differentials; bank-era chains compared on balances, pn_bank rows, yields "
          "and refunds.", "section 6 C16", "Known finding: mixed bank-era batches (closed era). "),
- "C17": ("Coq theorems: a rejected batch gets exactly its negative code and moves no balance; effects only with a complete execution; paging by LIMIT/OFFSET over a fixed order "
+ "C17": ("Coq theorems: a rejected batch gets exactly its negative code and moves no balance; effects only with a complete execution; whenever a batch is recorded its history rows carry the "
+         "credited amounts, its status says the executing height and EVERY balance cell moves by exactly what those rows stand for (arrival path, holding path, and the coinbase-style "
+         "writers: rewards, burns, developer and staking payouts); paging by LIMIT/OFFSET over a fixed order "
          "returns every action exactly once. Tie: history, lookup, status, holding and relation rows compared with the node; executable oracle 'replaying the recorded "
          "history reproduces every balance' on the node's dumps; the real API server (get-transactions by hash/address/height/txid with every filter and explicit offsets, "
          "get-transaction, get-transaction-status, get-pegnet-balances) walked page by page and compared with plain SELECTs over a read-only connection.", "section 6 C17",
@@ -92,8 +95,8 @@ CLAIMS = {
          "Known finding (recorded): an untracked build run after a tracked one leaves version gaps that are accepted. "),
  "C20": ("Coq theorems over all byte strings: an accepted batch is canonical (exactly the expected keys once each, known tickers, one of transfers/conversion, amounts within "
          "int64, one input address; tolerated variations listed), by the length-accounting argument; FactoidToFactoshi returns exactly the denoted number of base units or "
-         "rejects, and accepts everything representable; both models tied to the Go parsers by differential runs (structured + malformed streams; exhaustive short strings "
-         "in the thorough tier).", "section 6 C20", "encode/decode round trip is checked by correspondence only (parser round-trip lemma not proved). "),
+         "rejects, and accepts everything representable; decode(encode b) = Some b with the parser round trip parse(print v) = Some v (exactly characterised), encode injective, re-encoding of accepted content accepted and canonical; both models tied to the Go parsers by differential runs (structured + malformed streams; exhaustive short strings "
+         "in the thorough tier).", "section 6 C20", "The round trip decode(encode b) = Some b is proved (Props/C20roundtrip.v, parser round trip included) for valid batches whose fields have their Go types; the address text codec (base58) is an oracle with an inverse hypothesis. "),
 }
 
 
